@@ -394,6 +394,9 @@ func run06(c *core.Ctx) {
 	for i := 0; i < 3; i++ {
 		reexec06(c)
 	}
+	for i := 0; i < 2; i++ {
+		failed06(c)
+	}
 	h := open06()
 	defer h.Close()
 	root := h.DB
@@ -443,6 +446,16 @@ func run06(c *core.Ctx) {
 	if r.Chance(1, 4) {
 		palette = append(palette, 31, 31)
 	}
+	// "deep" histories: one or two forms only and long prefixes, so that the slice a clause keeps (joins, conditions,
+	// scopes, order columns ...) reaches every length - a slice that grew by append has spare capacity at 3, 5-7, 9-15 elements
+	deep := r.Chance(1, 5)
+	if deep {
+		palette = []int{core.Pick(r, []int{15, 15, 0, 9, 13, 14, 18, 20, 23, 6, 8, 19})}
+		if r.Bool() {
+			palette = append(palette, r.Intn(28))
+		}
+		c.Inc("deep_histories")
+	}
 	stepSeed := func() uint64 { return (r.U64() &^ 31) | uint64(core.Pick(r, palette)) }
 	for i := 0; i < nops; i++ {
 		switch k := r.Intn(12); {
@@ -474,7 +487,11 @@ func run06(c *core.Ctx) {
 			n := core.Pick(r, nodes)
 			db := n.db
 			path := append([]pel(nil), n.path...)
-			for j := r.Intn(4); j > 0; j-- {
+			nfront := r.Intn(4)
+			if deep {
+				nfront = r.Range(1, 7)
+			}
+			for j := nfront; j > 0; j-- {
 				p := pel{kind: "step", seed: stepSeed()}
 				if p.seed%32 == 25 {
 					// Model(&T{}) hands gorm a caller-owned object that update finishers write
